@@ -155,6 +155,10 @@ class Sc:
         return s, c
 
     def text(self):
+        if self.rng.random() < 0.5:
+            # the destructor, once nothing can run any more (a callback of a destroyed server
+            # would be a use after free of the harness's own making)
+            self.P.do("top", "w0.destroy")
         return "== %s\n%s\n%s\nend\n" % (self.sid, "\n".join(self.cfg.lines), "\n".join(self.P.lines))
 
 
